@@ -5,9 +5,12 @@ package props
 import (
 	"context"
 	"fmt"
+	"regexp"
 	"strings"
 	"time"
 
+	"github.com/tdakkota/docker-logql/internal/iterators"
+	"github.com/tdakkota/docker-logql/internal/logql"
 	"github.com/tdakkota/docker-logql/internal/logql/logqlengine"
 	"github.com/tdakkota/docker-logql/internal/logstorage"
 	"github.com/tdakkota/docker-logql/internal/otelstorage"
@@ -314,6 +317,8 @@ func runC04(r *vk.Run) {
 		c.Count("stress_merges", 3)
 	})
 
+	phaseReuse(r)
+
 	blocks, distinct := collectRaceReports("C04")
 	r.SetExtra("race_report_blocks", blocks)
 	r.SetExtra("race_reports_distinct", len(distinct))
@@ -360,4 +365,144 @@ func runC04(r *vk.Run) {
 	r.Require("inventories_all_orders", 12)
 	r.Require("distinct:completion_orders", 150)
 	r.Require("orders_realised_as_planned", 400)
+}
+
+// phaseReuse is shared by C03 (nothing lost or altered) and C04 (every record of every selected container
+// exactly once, in order): both are statements about every selection a Querier serves, not only its first.
+func phaseReuse(r *vk.Run) {
+	// one Querier serving several selections, as a query with several selectors makes it do: one after
+	// another (each drained and closed before the next is opened), or all open at once and drained in
+	// turn. Every selection delivers exactly the records of the containers IT selects, whatever the
+	// Querier served before or serves at the same time
+	r.Phase("reuse", r.N(300, 30000), func(c *vk.Case) {
+		rng := c.Rng
+		inv := genMergeInventory(rng, rng.Range(3, 8), 6)
+		fd := newFakeDocker(inv)
+		q := dockerQuerier(fd)
+		nsel := rng.Range(2, 4)
+		subs := make([][]CSpec, nsel)
+		for s := range subs {
+			switch rng.Intn(4) {
+			case 0: // everything
+				subs[s] = inv
+			case 1: // a tail of the listing (not a prefix of it)
+				subs[s] = inv[rng.Range(1, len(inv)-1):]
+			default:
+				for _, cs := range inv {
+					if rng.Bool() {
+						subs[s] = append(subs[s], cs)
+					}
+				}
+				if len(subs[s]) == 0 {
+					subs[s] = inv[len(inv)-1:]
+				}
+			}
+		}
+		open := func(sub []CSpec) (iterators.Iterator[logstorage.Record], error) {
+			var params logqlengine.SelectLogsParams
+			if len(sub) != len(inv) {
+				ids := make([]string, len(sub))
+				for i, cs := range sub {
+					ids[i] = cs.ID
+				}
+				src := strings.Join(ids, "|")
+				params.Labels = []logql.LabelMatcher{{Label: "container_id", Op: logql.OpRe, Value: src, Re: regexp.MustCompile("^(?:" + src + ")$")}}
+			}
+			return q.SelectLogs(context.Background(), otelstorage.Timestamp(1600000000e9), otelstorage.Timestamp(1800000000e9), params)
+		}
+		got := make([][]mergedRec, nsel)
+		read := func(s int, it iterators.Iterator[logstorage.Record]) bool {
+			var rec logstorage.Record
+			if !it.Next(&rec) {
+				return false
+			}
+			cid := ""
+			if v, ok := rec.ResourceAttrs.AsMap().Get("container_id"); ok {
+				cid = v.Str()
+			}
+			got[s] = append(got[s], mergedRec{TS: int64(rec.Timestamp), Line: rec.Body, CID: cid})
+			return len(got[s]) < 100000
+		}
+		mode := vk.Pick(rng, []string{"one-after-another", "all-open-drained-in-order", "all-open-drained-in-turn", "all-open-drained-last-first"})
+		det := func() map[string]any {
+			return map[string]any{"inventory": inv, "selections": subs, "mode": mode, "delivered": got}
+		}
+		fail := func(s int, what string) {
+			c.Fail("", fmt.Sprintf("selection %d of %d on one Querier (%s, %d of %d containers selected): %s", s+1, nsel, mode, len(subs[s]), len(inv), what), det())
+		}
+		if mode == "one-after-another" {
+			for s := range subs {
+				it, err := open(subs[s])
+				if err != nil {
+					fail(s, "SelectLogs failed: "+err.Error())
+					return
+				}
+				for read(s, it) {
+				}
+				err = it.Err()
+				_ = it.Close()
+				if err != nil {
+					fail(s, "iterator failed: "+err.Error())
+					return
+				}
+			}
+		} else {
+			its := make([]iterators.Iterator[logstorage.Record], nsel)
+			for s := range subs {
+				it, err := open(subs[s])
+				if err != nil {
+					fail(s, "SelectLogs failed: "+err.Error())
+					return
+				}
+				its[s] = it
+			}
+			switch mode {
+			case "all-open-drained-in-order":
+				for s := range its {
+					for read(s, its[s]) {
+					}
+				}
+			case "all-open-drained-last-first":
+				for s := nsel - 1; s >= 0; s-- {
+					for read(s, its[s]) {
+					}
+				}
+			default:
+				live := nsel
+				done := make([]bool, nsel)
+				for live > 0 {
+					for s := range its {
+						if !done[s] && !read(s, its[s]) {
+							done[s] = true
+							live--
+						}
+					}
+				}
+			}
+			for s := range its {
+				err := its[s].Err()
+				_ = its[s].Close()
+				if err != nil {
+					fail(s, "iterator failed: "+err.Error())
+					return
+				}
+			}
+		}
+		c.Eval(nsel)
+		for s := range subs {
+			if msg := checkMerged(subs[s], got[s]); msg != "" {
+				fail(s, msg)
+				return
+			}
+		}
+		if op, cl, _, _ := fd.Ledger(); op != cl {
+			c.Fail("", fmt.Sprintf("%d selections on one Querier (%s): %d readers opened, %d closed", nsel, mode, op, cl), det())
+			return
+		}
+		c.Count("selections_on_a_shared_querier", nsel)
+		c.Seen("reuse_modes", mode)
+		c.Nontrivial(fmt.Sprintf("reuse|%d", c.Idx))
+	})
+	r.Require("selections_on_a_shared_querier", 500)
+
 }
